@@ -183,21 +183,21 @@ def k1Stage (P : Params α) (F : α → List α → α → List α) (t0 h hOld h
     let r := evalAt F h ch
     orReduce P.one { r.2 with mr := updReduction P r.2.molesMax r.2.mr r.1, k1 := r.1 } k
 
-/-- `-runge_kutta 1` with equal rates: Euler step, exit when the rate at the end equals the rate at the start -/
-def rk1Stage (P : Params α) (F : α → List α → α → List α) (tol : List α) (h : α) (n : Nat) (ch : Chem α)
+/-- `-runge_kutta 1` with equal rates: Euler step; the rate at the end of the step is evaluated at the end time
+(`rate_sim_time = rate_sim_time_start + h_sum + h`, also when the rate at the start is zero) and the loop is left only when it
+equals the rate at the start within the tolerance; otherwise the step is redone with `rk = 3` -/
+def rk1Stage (P : Params α) (F : α → List α → α → List α) (t0 : α) (tol : List α) (h hSum : α) (n : Nat) (ch : Chem α)
     (k : Chem α → Outcome α) : Outcome α :=
   if ch.rk == 1 && ch.equalRate then
-    if ch.k1.all (fun x => !(P.minTotal < absv P.zero x)) then .exit ch      -- zero_rate
-    else
-      let r := earlyExit P F h tol (lincomb P.zero n P.e1 [ch.k1]) ch false
-      orExit r.1 r.2 fun _ => k { r.2 with rk := 3 }
+    let r := earlyExit P F h tol (lincomb P.zero n P.e1 [ch.k1]) { ch with tCur := t0 + hSum + h } false
+    orExit r.1 r.2 fun _ => k { r.2 with rk := 3 }
   else k ch
 
 /-- one pass through the body of `while (h_sum < kin_time)` after the MOLES_TOO_LARGE label -/
 def pass (P : Params α) (F : α → List α → α → List α) (t0 : α) (tol : List α) (h hOld hSum : α) (ch : Chem α) : Outcome α :=
   let n := tol.length
   k1Stage P F t0 h hOld hSum ch fun ch =>
-  rk1Stage P F tol h n ch fun ch =>
+  rk1Stage P F t0 tol h hSum n ch fun ch =>
   let a21 := nth (row P.A 1) 0 P.zero
   let r2 := evalStage P F t0 h hSum (nth P.c 1 P.zero) (ch.k1.map (fun x => x * a21)) ch
   let ch2 := { r2.2 with equalRate := r2.2.equalRate && allWithin P r2.2.k1 r2.1 tol }
